@@ -49,6 +49,10 @@ def kindOf : Impl.Stop → String
   | .error .budget => "budget"
   | .fuel => "budget"
 
+/-- what is compared between the Go code and the model: halted, ran out of the harness budget, crashed the host,
+    or ended with an error (which error is informative only: it depends on message wording) -/
+def coarse (k : String) : String := if k == "halt" || k == "budget" || k == "hostcrash" then k else "error"
+
 structure GoResult where
   kind : String
   regs : Regs
@@ -86,7 +90,7 @@ def specCheck (model : CpuModel) (r0 : Regs) (mem0 : List (Addr × Byte)) (g : G
   -- collect the specification tree's store masks while running it
   match (Spec.step model r0).run sbus r0 bus0 with
   | (.error (.illegal _ _), b) =>
-    let v := (if g.kind != "illegal" then [s!"C11:kind:{g.kind}"] else []) ++
+    let v := (if coarse g.kind != "error" then [s!"C11:kind:{g.kind}"] else []) ++
       ((regsDiff 0 g.regs r0).map ("C11:regs:" ++ ·)) ++
       (if g.trace != b.trace then ["C11:trace"] else [])
     (v, "illegal")
@@ -165,7 +169,7 @@ def handleRun (line : String) : String :=
       -- tie 2: the model against the Go code.  Registers after a fault are compared for illegal only.
       let cmpRegs := kind == "halt" || kind == "illegal"
       let diffs : List String :=
-        (if kind != g.kind then [s!"kind:{g.kind}!={kind}"] else []) ++
+        (if coarse kind != coarse g.kind then [s!"kind:{g.kind}!={kind}"] else []) ++
         (if cmpRegs then regsDiff 0 g.regs mach.regs else []) ++
         (if kind == "halt" && g.cycles != mach.cycles then [s!"cycles:{g.cycles}!={mach.cycles}"] else []) ++
         (if (g.trace.toList.filter (·.write)) != (mach.mem.trace.toList.filter (·.write)) then ["stores"] else []) ++
